@@ -118,6 +118,11 @@ PayloadIncr(data, pes, hn, path, pseq, label) ==
   /\ lastHN = "t"                                   \* P4: the previous payload announced more
   /\ <<path, label>> \notin seen                    \* P2
   /\ (Nav(merged, pseq).t = "o" \/ AllowUndeliverable)   \* P3 Deliverable
+  \* P2b "with ... its label": every response key the payload carries was collected, for the
+  \* object at that path, under a deferred fragment with exactly this label
+  /\ (data.t = "o" =>
+        \A i \in 1..Len(data.f) :
+          \E o \in Orders : [p |-> path, k |-> data.f[i].k, l |-> label] \in ref[o].dinfo)
   /\ merged' = (IF data.t = "o" THEN MergeAt(merged, pseq, data.f) ELSE merged)
   /\ failed' = (IF data.t = "o" THEN failed ELSE failed \cup {pseq})
   /\ seen' = seen \cup {<<path, label>>}
